@@ -786,16 +786,6 @@ namespace
                   return kname + " " + od.name + " " + K::shape_name(shape) + " alias=" + part_name(od.arity, pj) + " realisation=" + real_name[real]
                     + " values=" + vs_name(vs) + (od.alpha ? std::string(" alpha#") + alphas[ai].name : std::string()); });
                 const size_t pool0 = MemoryPool::_pool.size();
-#ifdef VERIF_ASAN
-                // set_vec/set_vec_inv of an EMPTY leaf inside a non-empty composed vector ends in memcpy(p, nullptr, 0):
-                // harmless on glibc but formally undefined; the sanitizer build reports it under its own key
-                if((op == TO_DV || op == FROM_DV) && minleaf == 0 && flat > 0)
-                {
-                  int sig = c.run_forked([&]{ Case<V> cs(c, kname, op, shape, pj, real, vs, ai); cs.build(); DenseVector<DT, Index> d(flat, DT(1)); if(op == TO_DV) d.copy(*cs.o[0]); else d.copy_inv(*cs.o[0]); });
-                  if(!c.check(sig == 0, "MemoryPool::copy: memcpy with null pointer and count 0 (set_vec of an empty leaf)", "UBSan nonnull-attribute report in MemoryPool::copy (memory_pool.hpp:246) when an empty sub-vector is flattened"))
-                    continue;
-                }
-#endif
                 {
                   Case<V> cs(c, kname, op, shape, pj, real, vs, ai);
                   cs.run();
